@@ -607,7 +607,9 @@ func (g G) callText(env exprEnv, depth int) string {
 }
 
 var typeDecls = []string{"string", "number", "bool", "any", "list(string)", "set(number)", "map(any)", "object({a = string, n = number})",
-	"tuple([string, bool])", "list(object({a = optional(string)}))", "object({})", "map(list(string))"}
+	"tuple([string, bool])", "list(object({a = optional(string)}))", "object({})", "map(list(string))",
+	// quoted (and empty) attribute names
+	`object({ "a" = string })`, `object({"k" = list(number), b = bool})`, `object({ "" = string })`, `map(object({"é" = any}))`}
 
 // exprFor generates expression text for an attribute with constraint c.
 func (g G) exprFor(c m.ConsM, env exprEnv, depth int) string {
